@@ -41,11 +41,40 @@ theorem tie_String_copy (st : St) (tid d s : Nat) (h : d ≠ s) :
     simp [pre, h, hs, rel, noClr, sem, exec, isGuard, String_dtor, String_copy, strCtx, evalC, evalP, isBlkDen, isStaticDen, isNoneH,
       Handle.isBlk, setP, emit, viewVal, view]
 
-/-- `S[d] = S[s]` -/
-theorem tie_String_assign (st : St) (tid d s : Nat) :
-    noClr (pre st tid (.sAssign d s)) = sem (strCtx st tid d s siteAssign none) String_assign := by
-  cases hs : st.slots s <;>
-    simp [pre, hs, rel, shareAssign, noClr, sem, exec, isGuard, String_assign, strCtx, evalC, evalP, isBlkDen, Handle.isBlk, setP, emit]
+/-- what the translated `operator=` does with the static empty String as source: true = it stores the static descriptor
+    (two steps: `dec; free`), false = it allocates an empty block (three steps) -/
+def emptyAssignIsStatic (body : Stmt) : Bool := (sem (strCtx (init 2) 0 0 1 siteAssign none) body).length == 2
+
+/-- `S[d] = S[s]`: the model's list is the translated body — for the policy of the empty source that the body has
+    (`assignEmptyStatic`, a measured parameter of the model) —, or the body skips the call entirely because both handles already
+    designate the same counted block (harmless change C09-h5: the increment and the decrement of the model cancel each other) -/
+theorem tie_String_assign (st : St) (tid d s : Nat) (hflag : st.assignEmptyStatic = emptyAssignIsStatic String_assign) :
+    noClr (pre st tid (.sAssign d s)) = sem (strCtx st tid d s siteAssign none) String_assign
+    ∨ (∃ b, st.slots s = .blk b ∧ st.slots d = .blk b ∧ sem (strCtx st tid d s siteAssign none) String_assign = []) := by
+  simp [emptyAssignIsStatic, sem, exec, isGuard, String_assign, strCtx, evalC, evalP, isBlkDen, isStaticDen, isNoneH, Handle.isBlk,
+    setP, emit, init] at hflag
+  cases hs : st.slots s with
+  | none =>
+    left
+    simp [pre, hs, hflag, rel, noClr, sem, exec, isGuard, String_assign, strCtx, evalC, evalP, isBlkDen, isStaticDen, isNoneH,
+      Handle.isBlk, setP, emit, viewVal, view]
+  | inl tag val =>
+    left
+    simp [pre, hs, rel, noClr, sem, exec, isGuard, String_assign, strCtx, evalC, evalP, isBlkDen, isStaticDen, isNoneH,
+      Handle.isBlk, setP, emit, viewVal, view]
+  | blk b =>
+    by_cases hd : st.slots d = .blk b
+    · first
+      | (left
+         simp [pre, hs, hd, shareAssign, noClr, sem, exec, isGuard, String_assign, strCtx, evalC, evalP, isBlkDen, Handle.isBlk, setP, emit]
+         done)
+      | (right
+         exact ⟨b, rfl, hd, by
+           simp [hs, hd, sem, exec, isGuard, String_assign, strCtx, evalC, evalP, isBlkDen, Handle.isBlk, setP, emit]⟩)
+    · left
+      have hd' : ¬ Handle.blk b = st.slots d := fun e => hd e.symm
+      simp [pre, hs, hd, hd', shareAssign, noClr, sem, exec, isGuard, String_assign, strCtx, evalC, evalP, isBlkDen, Handle.isBlk,
+        setP, emit]
 
 /-- `S[d].~String(); new(&S[d]) String` -/
 theorem tie_String_dtor_default (st : St) (tid d : Nat) :
@@ -136,18 +165,18 @@ theorem sem_detach_post (st : St) (tid d : Nat) (ok w : Bool) (nv : List Nat) (c
 theorem tie_String_detach (st s1 : St) (tid d : Nat) :
     (∀ bytes, pre st tid (.sAppend d bytes) = sem (detCtx st tid d 1 ((viewVal st d).length + bytes.length ≤ blkCap st d) false [] 0) String_detach
       ∧ post s1 tid (.sAppend d bytes) = sem (detCtx s1 tid d 2 true (isWriting s1 tid) (viewVal s1 d ++ bytes)
-          (s1.capTab siteDetach (viewVal s1 d ++ bytes).length)) String_detach)
+          (detCap s1 d (viewVal s1 d ++ bytes).length)) String_detach)
     ∧ (∀ n, pre st tid (.sReserve d n) = sem (detCtx st tid d 1 (max n (viewVal st d).length ≤ blkCap st d) false [] 0) String_detach
       ∧ post s1 tid (.sReserve d n) = sem (detCtx s1 tid d 2 true (isWriting s1 tid) (viewVal s1 d)
-          (s1.capTab siteDetach (max n (viewVal s1 d).length))) String_detach)
+          (detCap s1 d (max n (viewVal s1 d).length))) String_detach)
     ∧ (∀ n, pre st tid (.sResize d n) = sem (detCtx st tid d 1 (n ≤ blkCap st d) false [] 0) String_detach
       ∧ post s1 tid (.sResize d n) = sem (detCtx s1 tid d 2 true (isWriting s1 tid) ((viewVal s1 d).take n)
-          (s1.capTab siteDetach n)) String_detach)
+          (detCap s1 d n)) String_detach)
     ∧ (∀ x, pre st tid (.sPrintf d x) = sem (detCtx st tid d 1 (200 ≤ blkCap st d) false [] 0) String_detach
       ∧ post s1 tid (.sPrintf d x) = sem (detCtx s1 tid d 2 true (isWriting s1 tid) (decDigits x)
-          (s1.capTab siteDetach 200)) String_detach)
+          (detCap s1 d 200)) String_detach)
     ∧ (∀ nv, pre st tid (.gEdit d false nv) = sem (detCtx st tid d 1 true false [] 0) String_detach
-      ∧ post s1 tid (.gEdit d false nv) = sem (detCtx s1 tid d 2 true (isWriting s1 tid) nv (s1.capTab siteDetach nv.length)) String_detach) := by
+      ∧ post s1 tid (.gEdit d false nv) = sem (detCtx s1 tid d 2 true (isWriting s1 tid) nv (detCap s1 d nv.length)) String_detach) := by
   refine ⟨fun bytes => ⟨?_, ?_⟩, fun n => ⟨?_, ?_⟩, fun n => ⟨?_, ?_⟩, fun x => ⟨?_, ?_⟩, fun nv => ⟨?_, ?_⟩⟩ <;>
     first
     | (rw [sem_detach_pre]; try rfl)
@@ -156,7 +185,7 @@ theorem tie_String_detach (st s1 : St) (tid d : Nat) :
 /-- `replace(char, char)`, `toLowerCase()`, `operator char*()`, `detach()` (`sEdit`): the same, with the edited bytes -/
 theorem tie_String_detach_edit (st s1 : St) (tid d kind a b : Nat) :
     pre st tid (.sEdit d kind a b) = sem (detCtx st tid d 1 true false [] 0) String_detach
-    ∧ ∃ nv, post s1 tid (.sEdit d kind a b) = sem (detCtx s1 tid d 2 true (isWriting s1 tid) nv (s1.capTab siteDetach nv.length)) String_detach := by
+    ∧ ∃ nv, post s1 tid (.sEdit d kind a b) = sem (detCtx s1 tid d 2 true (isWriting s1 tid) nv (detCap s1 d nv.length)) String_detach := by
   refine ⟨by rw [sem_detach_pre]; try rfl, ?_⟩
   refine ⟨if kind = 0 then (viewVal s1 d).map (fun c => if c = a then b else c) else if kind = 1 then (viewVal s1 d).map lowerByte
     else viewVal s1 d, ?_⟩
@@ -168,7 +197,7 @@ theorem tie_String_prepend (st s1 : St) (tid d : Nat) (bytes : List Nat) :
     pre st tid (.sPrepend d bytes) = sem (strCtx st tid (tmpU tid) d siteCopy none) String_copy ++
         sem (detCtx st tid d 1 ((viewVal st d).length + bytes.length ≤ blkCap st d) false [] 0) String_detach
     ∧ noClr (post s1 tid (.sPrepend d bytes)) =
-        sem (detCtx s1 tid d 2 true (isWriting s1 tid) (bytes ++ viewVal s1 d) (s1.capTab siteDetach (bytes ++ viewVal s1 d).length)) String_detach
+        sem (detCtx s1 tid d 2 true (isWriting s1 tid) (bytes ++ viewVal s1 d) (detCap s1 d (bytes ++ viewVal s1 d).length)) String_detach
           ++ sem (strCtx s1 tid (tmpU tid) (tmpU tid) siteCopy none) String_dtor := by
   constructor
   · rw [sem_detach_pre]
